@@ -33,6 +33,9 @@ def configs(tier, seed):
                         continue
                     out.append(dict(biort=b, qshift=q, J=J, H=h, W=w, B=1, C=1))
         out.append(dict(biort='near_sym_a', qshift='qshift_a', J=2, H=6, W=5, B=2, C=2))
+        # filters given as tuples of arrays (the documented alternative to names)
+        out.append(dict(biort='near_sym_b', qshift='qshift_b', J=2, H=6, W=8, B=1, C=1, as_tuples=True))
+        out.append(dict(biort='legall', qshift='qshift_06', J=3, H=5, W=7, B=1, C=1, as_tuples=True))
     else:
         sizes = [(h, w) for h in range(2, 13) for w in range(2, 13)]
         for i, (b, q) in enumerate(DT.ALL_PAIRS):
@@ -53,7 +56,13 @@ def case(cfg):
     in_specs = [('x', (cfg['B'], cfg['C'], cfg['H'], cfg['W']))]
 
     def impl(pw, ts):
-        yl, yh = pw.DTCWTForward(biort=cfg['biort'], qshift=cfg['qshift'], J=cfg['J'])(ts[0])
+        b, q = cfg['biort'], cfg['qshift']
+        if cfg.get('as_tuples'):
+            import dtcwt.coeffs as RC
+            h0o, g0o, h1o, g1o = RC.biort(b)
+            h0a, h0b, g0a, g0b, h1a, h1b, g1a, g1b = RC.qshift(q)
+            b, q = (h0o, h1o), (h0a, h0b, h1a, h1b)
+        yl, yh = pw.DTCWTForward(biort=b, qshift=q, J=cfg['J'])(ts[0])
         return [('yl', yl)] + [('yh%d' % (j + 1), h) for j, h in enumerate(yh)]
 
     def ref(arrs):
